@@ -114,6 +114,14 @@ def parseJson (s : String) : Option Json :=
   | some (v, rest) => if (skipWs rest).isEmpty then some v else none
   | none => none
 
+/-- first JSON value of the text and whether non-blank characters follow it (`from_slice` decodes the
+value first and only then complains about trailing characters) -/
+def parseJsonPrefix (s : String) : Option (Json × Bool) :=
+  let cs := s.toList
+  match parseVal (cs.length + 2) cs with
+  | some (v, rest) => some (v, !(skipWs rest).isEmpty)
+  | none => none
+
 open Json in
 def jget (j : Json) (k : String) : Json :=
   match j with
